@@ -258,6 +258,20 @@ Definition delete_blob (s : state) : state * res :=
   if settled s then (set_len None (set_store None (set_verified false (close_blob s))), ROk)
   else (s, RSkipped).
 
+(* The object as BlobManager.get_blob(hash, expected) creates it over a blob directory that may already hold a file
+   named after the hash (restart).  BlobFile.__init__: the expected length is taken as it is; an existing file
+   whose size differs from a (non-zero) expected length is deleted (delete() also forgets the length); otherwise
+   the file is taken over: length = file size, verified.  BlobBuffer.__init__ only records the length. *)
+Definition start (file : option bytes) (expected : option N) : state :=
+  match kd, file with
+  | KFile, Some f =>
+      let size := N.of_nat (length f) in
+      let mismatch := match expected with Some L => negb (L =? 0) && negb (L =? size) | None => false end in
+      if mismatch then init
+      else mkS (Some size) [] [] [] false true None (Some f) O
+  | _, _ => mkS expected [] [] [] false false None None O
+  end.
+
 Inductive op :=
 | SetLength (n : Z) | Open (k : N) | Write (i : nat) (d : bytes) | CloseW (i : nat) | CloseBlob
 | Tick | Drain | IoDone | Read | Delete.
